@@ -171,6 +171,20 @@ inline void touch_slow(void const* p, char const* what)
 }
 
 // ------------------------------------------------------------------------------------------------ functors (key only)
+// Predicates / comparators only have to return something contextually convertible to bool.  All harness functors return
+// int; what "true" looks like is the truth mode of the case (Case::tr, set by run_entry): 0 -> 1, 1 -> 1024 (the
+// <cctype> classifier style), 2 -> a negative value that varies with the operand.  (A class with explicit operator bool
+// is exercised separately in C06_types.cpp.)
+inline int g_truth_mode = 0;
+inline auto truth(bool b, int key) -> int
+{
+    if (!b) { return 0; }
+    switch (g_truth_mode) {
+    case 0: return 1;
+    case 1: return 1024;
+    default: return -(3 + (key & 3));
+    }
+}
 inline auto pred_eval(int id, int k) -> bool
 {
     switch (id) {
@@ -182,11 +196,11 @@ inline auto pred_eval(int id, int k) -> bool
 }
 struct Pred {
     int id;
-    auto operator()(Elem const& e) const -> bool
+    auto operator()(Elem const& e) const -> int
     {
         touch(&e, "predicate applied to");
         ++g().pcalls;
-        return pred_eval(id, e.key);
+        return truth(pred_eval(id, e.key), e.key);
     }
 };
 // ordering comparators: 0 less (used through the overload WITHOUT comparator), 1 greater, 2 (key mod 2) less
@@ -200,25 +214,25 @@ inline auto cmp_eval(int id, int a, int b) -> bool
 }
 struct Cmp {
     int id;
-    auto operator()(Elem const& a, Elem const& b) const -> bool
+    auto operator()(Elem const& a, Elem const& b) const -> int
     {
         touch(&a, "comparator applied to");
         touch(&b, "comparator applied to");
         ++g().pcalls;
-        return cmp_eval(id, a.key, b.key);
+        return truth(cmp_eval(id, a.key, b.key), a.key);
     }
     // heterogeneous forms (value is an int key)
-    auto operator()(Elem const& a, int b) const -> bool
+    auto operator()(Elem const& a, int b) const -> int
     {
         touch(&a, "comparator applied to");
         ++g().pcalls;
-        return cmp_eval(id, a.key, b);
+        return truth(cmp_eval(id, a.key, b), a.key);
     }
-    auto operator()(int a, Elem const& b) const -> bool
+    auto operator()(int a, Elem const& b) const -> int
     {
         touch(&b, "comparator applied to");
         ++g().pcalls;
-        return cmp_eval(id, a, b.key);
+        return truth(cmp_eval(id, a, b.key), a);
     }
 };
 // binary predicates: 0 == (used through the overload WITHOUT predicate), 1 (key mod 2) ==, 2 asymmetric a.key <= b.key
@@ -232,12 +246,12 @@ inline auto eq_eval(int id, int a, int b) -> bool
 }
 struct Eq {
     int id;
-    auto operator()(Elem const& a, Elem const& b) const -> bool
+    auto operator()(Elem const& a, Elem const& b) const -> int
     {
         touch(&a, "binary predicate applied to");
         touch(&b, "binary predicate applied to");
         ++g().pcalls;
-        return eq_eval(id, a.key, b.key);
+        return truth(eq_eval(id, a.key, b.key), a.key);
     }
 };
 
@@ -522,6 +536,7 @@ struct Case {
     int eq{0};
     int pred{0};
     int val{0};
+    int tr{0}; // truth mode of the predicates / comparators (see truth())
 };
 // keys 0..9 are written as a digit string ("-" = empty); sequences with a larger key as ",k,k,k"
 inline auto digits(std::vector<int> const& v) -> std::string
@@ -559,7 +574,7 @@ inline auto undigits(std::string const& t) -> std::vector<int>
 inline auto show_case(Case const& c) -> std::string
 {
     return c.algo + " it=" + std::string(1, c.it) + " pad=" + std::to_string(c.pad) + " a=" + digits(c.a) + " b=" + digits(c.b) + " m=" + std::to_string(c.m) + " n=" + std::to_string(c.n) + " cmp=" + std::to_string(c.cmp)
-         + " eq=" + std::to_string(c.eq) + " pred=" + std::to_string(c.pred) + " val=" + std::to_string(c.val);
+         + " eq=" + std::to_string(c.eq) + " pred=" + std::to_string(c.pred) + " val=" + std::to_string(c.val) + " tr=" + std::to_string(c.tr);
 }
 inline auto parse_case(std::string const& s, Case& c) -> bool
 {
@@ -593,11 +608,13 @@ inline auto parse_case(std::string const& s, Case& c) -> bool
             c.pred = std::atoi(v.c_str());
         } else if (k == "val") {
             c.val = std::atoi(v.c_str());
+        } else if (k == "tr") {
+            c.tr = std::atoi(v.c_str());
         } else {
             return false;
         }
     }
-    return seen == 10;
+    return seen == 10 || seen == 11; // "tr=" is absent in case strings written before the truth modes existed
 }
 
 inline auto mk(std::vector<int> const& keys, int tagbase) -> V
@@ -774,7 +791,9 @@ inline auto nontrivial_case(Case const& c, unsigned dims) -> bool
 inline auto run_entry(Entry const& e, Case const& c) -> std::string
 {
     vf::Flight<Case> fl(e.name, c);
-    auto d = e.fn(c);
+    g_truth_mode = c.tr;
+    auto d       = e.fn(c);
+    g_truth_mode = 0;
     g().active = false;
     return d;
 }
@@ -804,6 +823,7 @@ inline void account(Entry const& e, Case const& c, bool random)
     if ((e.dims & (D_B | D_BSAME)) != 0) { vf::label("non-empty second range", !c.b.empty()); }
     vf::label("wrapper iterators (not raw pointers)", c.it != 'P');
     vf::label("mixed iterator categories across the ranges", c.it >= 'a' && c.it <= 'z');
+    if ((e.dims & (D_PRED | D_CMP | D_EQ | D_EQV)) != 0) { vf::label("predicate / comparator returns a non-bool truthy value other than 1", c.tr != 0); }
     vf::label("long input (length >= 30, size-threshold classes)", len >= 30);
     if ((e.dims & (D_B | D_BSAME)) != 0) { vf::label("second range / needle longer than 3", c.b.size() > 3); }
     vf::label("guarded buffer (pad=1) vs exact-size block (pad=0)", c.pad == 1);
@@ -897,6 +917,8 @@ inline void enumerate(vf::Ctx& ctx, Entry const& e, int LA, int LB, int LSAME)
         for (int i = 0; i < len; ++i) { total *= 3; }
         for (long code = 0; code < total; ++code) {
             if (!ctx.mine(idx++)) { continue; }
+            // the truth mode is not a full dimension: every sequence a gets one of the three modes (hash of its index)
+            c.tr = (dims & (D_PRED | D_CMP | D_EQ | D_EQV)) != 0 ? static_cast<int>(((idx * 0x9E3779B97F4A7C15ULL) >> 33) % 3U) : 0;
             c.a.assign(static_cast<std::size_t>(len), 0);
             long x = code;
             for (int i = 0; i < len; ++i) {
@@ -974,6 +996,7 @@ inline void random_cases(vf::Ctx& ctx, Entry const& e, int count, int maxlen, bo
         c.pred = (dims & D_PRED) != 0 ? static_cast<int>(rng.below(4)) : 0;
         c.eq   = (dims & D_EQ) != 0 ? static_cast<int>(rng.below(3)) : ((dims & D_EQV) != 0 ? static_cast<int>(rng.below(2)) : 0);
         c.val  = (dims & D_VAL) != 0 ? static_cast<int>(rng.below(5)) : 0;
+        c.tr   = (dims & (D_PRED | D_CMP | D_EQ | D_EQV)) != 0 ? static_cast<int>(rng.below(3)) : 0;
         if ((dims & D_VAL) != 0 && nkey > 4 && rng.below(4) != 0) { c.val = static_cast<int>(rng.below(static_cast<std::uint64_t>(nkey + 1))); }
         c.m    = (dims & D_MID) != 0 ? static_cast<int>(rng.below(static_cast<std::uint64_t>(len + 1))) : 0;
         c.n    = (dims & D_N) != 0 ? static_cast<int>(rng.range(-1, len + 1)) : 0;
